@@ -21,3 +21,4 @@ def check(repo, rep, tier):
     rep.run(rs.rule_context_not_written, em, rep, 'C18.N3c')
     from .. import rules_extra as rx
     rep.run(rx.rule_stages_per_call, cm, em, rep, 'C18.N5')
+    rep.run(rx.rule_no_import_time_container_mutated, cm, rep, 'C18.N6')
